@@ -76,9 +76,107 @@ def check_messages(inputs):
     return None
 
 
-def search(ctx):
+def ref_extract(ident: int):
+    """the header fields of a 29-bit identifier, computed here (NOT with the library's own _extract_header, which
+    may be the very thing that is broken): source bits 0-7, PS 8-15, PF 16-23, data page + reserved 24-25,
+    priority 26-28; PF < 240: addressed, destination = PS, PGN has PS = 0; else broadcast, destination 255"""
+    src, ps, pf, dp, prio = ident & 0xFF, (ident >> 8) & 0xFF, (ident >> 16) & 0xFF, (ident >> 24) & 3, (ident >> 26) & 7
+    if pf < 240:
+        return (dp << 16) | (pf << 8), src, ps, prio
+    return (dp << 16) | (pf << 8) | ps, src, 255, prio
+
+
+def _segment(payload: bytes, seq: int):
+    """fast-packet frames of a payload (first: counter, length, 6 bytes; then counter, 7 bytes; 0xFF filler)"""
+    frames = [bytes([(seq << 5) & 0xFF, len(payload)]) + payload[:6]]
+    rest, k = payload[6:], 1
+    while rest:
+        frames.append(bytes([((seq << 5) | k) & 0xFF]) + rest[:7])
+        rest, k = rest[7:], k + 1
+    return [f + b"\xff" * (8 - len(f)) for f in frames]
+
+
+def _msg_tuple(m):
+    return None if m is None else (m.PGN, m.id, m.source, m.destination, m.priority,
+                                   repr([(f.id, f.value, f.raw_value) for f in m.fields]))
+
+
+def check_fast(ident, payload, rng):
+    """a fast-packet message: pre-assembled through Actisense and canboat (already combined), frame by frame through
+    EByte, USB and Yacht Devices — the same message every way"""
     from nmea2000.decoder import NMEA2000Decoder
-    extract = NMEA2000Decoder._extract_header
+    res, shown = {}, {}
+
+    def run(name, fn):
+        try:
+            res[name] = _msg_tuple(fn())
+        except Exception as e:  # noqa: BLE001
+            res[name] = ("raises", type(e).__name__, str(e)[:80])
+    acti = W.render(3, ident, payload, rng, ref_extract, False)
+    basic = W.render(4, ident, payload, rng, ref_extract, False)
+    shown["actisense"], shown["basic"] = acti, basic
+    run("actisense", lambda: NMEA2000Decoder().decode_actisense_string(acti))
+    run("basic", lambda: NMEA2000Decoder().decode_basic_string(basic, True))
+    frames = _segment(payload, rng.randrange(8))
+    for name, fmt, meth in (("ebyte", 0, "decode_tcp"), ("usb", 1, "decode_usb"), ("yd", 2, "decode_yacht_devices_string")):
+        inputs = [W.render(fmt, ident, f, rng, ref_extract, False) for f in frames]
+        shown[name] = [i.hex() if isinstance(i, bytes) else i for i in inputs]
+
+        def feed(inputs=inputs, meth=meth):
+            d, last = NMEA2000Decoder(), None
+            for k, i in enumerate(inputs):
+                m = getattr(d, meth)(i)
+                if m is not None and k < len(inputs) - 1:
+                    return m       # delivered early
+                last = m
+            return last
+        run(name, feed)
+    ref = res["basic"]
+    for name, r in res.items():
+        if r != ref:
+            return {"key": f"assembled:{name}", "kind": "fast", "ident": ident, "payload": payload.hex(),
+                    "inputs": shown,
+                    "what": f"fast-packet PGN {ref_extract(ident)[0]} payload {payload.hex()} ({len(payload)} bytes): {name} gives "
+                            f"{str(r)[:200]} where the pre-assembled canboat line gives {str(ref)[:200]}"}
+    return None
+
+
+def fast_payloads(ctx, want):
+    """(pgn, payload) of fast-packet PGNs that decode (pre-assembled); short payloads (<= 8 bytes) first"""
+    import re as _re
+    import nmea2000.pgns as P
+    from nmea2000.decoder import NMEA2000Decoder
+    rng = ctx.rng
+    pgns = sorted(int(m.group(1)) for nm in dir(P) for m in [_re.fullmatch(r"is_fast_pgn_(\d+)", nm)] if m)
+    rng.shuffle(pgns)
+    out = []
+    for pgn in pgns:
+        if len(out) >= want:
+            break
+        try:
+            if not getattr(P, f"is_fast_pgn_{pgn}")():
+                continue
+        except Exception:  # noqa: BLE001
+            continue
+        for n in (4, 6, 8, 9, 14, 20, 27, 50):
+            got = False
+            for attempt in range(3):
+                payload = bytes([0xFF] * n) if attempt == 0 else bytes(rng.choice([0xFF, 0, rng.getrandbits(8)]) for _ in range(n))
+                line = "2020-01-01-00:00:00.000,3,%d,1,255,%d,%s" % (pgn, n, ",".join("%02x" % b for b in payload))
+                try:
+                    if NMEA2000Decoder().decode_basic_string(line, True) is not None:
+                        out.append((pgn, payload))
+                        got = True
+                        break
+                except Exception:  # noqa: BLE001
+                    pass
+            if got and n > 8:
+                break
+    return out
+
+
+def search(ctx):
+    extract = ref_extract
     rng = ctx.rng
     out, seen = [], set()
 
@@ -104,12 +202,27 @@ def search(ctx):
             ps = rng.getrandbits(8) if pf < 240 else (m.PGN & 0xFF)
             ident = (rng.getrandbits(3) << 26) | ((m.PGN >> 8) << 16) | (ps << 8) | rng.getrandbits(8)
             add(check_messages(_five(ident, payload, rng, extract, rep % 2 == 1)))
+    # fast-packet messages: pre-assembled formats vs frame-by-frame formats (short payloads included)
+    fps = fast_payloads(ctx, ctx.n(40, 200))
+    ctx.notes.append(f"witness search: {len(fps)} fast-packet payloads ({sum(1 for _, p in fps if len(p) <= 8)} of at most 8 bytes) "
+                     f"compared across pre-assembled and frame-by-frame formats")
+    for pgn, payload in fps:
+        pf = (pgn >> 8) & 0xFF
+        ps = rng.getrandbits(8) if pf < 240 else (pgn & 0xFF)
+        ident = (rng.getrandbits(3) << 26) | ((pgn >> 8) << 16) | (ps << 8) | rng.getrandbits(8)
+        add(check_fast(ident, payload, rng))
     return out
 
 
 def replay(ctx, data):
     w = data.get("witness", data)
-    inputs = [i for i in w["inputs"]]
+    inputs = [i for i in w["inputs"]] if w.get("kind") != "fast" else None
+    if w.get("kind") == "fast":
+        import random
+        r = check_fast(w["ident"], bytes.fromhex(w["payload"]), random.Random(0))
+        print("expected: the same message through pre-assembled and frame-by-frame formats")
+        print("observed:", r["what"] if r else "property holds on this input")
+        return r is not None
     r = check_args(inputs) if w.get("kind") == "args" else check_messages(inputs)
     print("expected: all input formats hand the shared decode path the same frame / produce the same message")
     print("observed:", r["what"] if r else "property holds on this input")
